@@ -28,41 +28,72 @@ def _lower_bounds(f, n):
 
 
 def str_grow(ctx, prog, rule='STR-GROW'):
-    f = prog.fn('psf_store_string', 'strings.c')
+    pub = prog.fn('psf_store_string', 'strings.c')
     USED, CAP = 'psf->strings.storage_used', 'psf->strings.storage_len'
+    # the growth step lives in psf_store_string or in a static helper of strings.c it calls: found by what it does (it stores a new storage_len)
+    grp = [(pub, None)] + [(g, c) for c in pub.calls() for g in prog.fns.get(c.get('callee') or '', []) if g.static and g.file == pub.file]
+    site = None
+    for g, hc in grp:
+        caps = [(a_, r_) for lv, a_, r_ in assigned_lvalues(g) if lv == CAP and r_ is not None]
+        if caps:
+            site = (g, hc, caps)
+            break
+    ctx.require(site is not None, 'psf_store_string: no store into strings.storage_len found (growth step)')
+    f, hcall, caps = site
+    # the comparison of storage_used + NEED with storage_len that sends control to the growth step: read off the CFG edges above the store,
+    # so `if (need > cap) { grow }` and `if (need <= cap) return ; grow` are the same thing
+    from .util import branch_facts
     guard = None
-    for n in f.walk():
-        if n['k'] == 'IfStmt':
-            cn = f.unwrap(f.N[n['cond']])
-            if cn.get('k') == 'BinaryOperator' and cn.get('op') == '>' and f.s(f.unwrap(f.N[cn['kids'][1]])) == CAP and USED in f.s(cn['kids'][0]):
-                guard = (n, lin(f, f.unwrap(f.N[cn['kids'][0]])))
-    ctx.require(guard is not None, 'psf_store_string: growth guard `storage_used + ... > storage_len` not found')
+    for blk in f.cfg.blocks.values():
+        if 'cond' not in blk:
+            continue
+        cn = f.unwrap(f.N[blk['cond']] if isinstance(blk['cond'], int) else blk['cond'])
+        if cn.get('k') != 'BinaryOperator' or cn.get('op') not in ('>', '>=', '<', '<='):
+            continue
+        l_, r_ = f.unwrap(f.N[cn['kids'][0]]), f.unwrap(f.N[cn['kids'][1]])
+        op = cn['op']
+        if f.s(l_) == CAP and USED in f.s(r_):
+            l_, r_, op = r_, l_, {'>': '<', '>=': '<=', '<': '>', '<=': '>='}[op]
+        if f.s(r_) == CAP and USED in f.s(l_):
+            # growth runs when need > cap (true edge of > / >=, false edge of <= / <): the store into storage_len is reachable over that edge only
+            if len(blk['succs']) != 2:
+                continue
+            grow_si = 0 if op in ('>', '>=') else 1
+            spt = f.cfg.point(caps[0][0])
+            if spt is None:
+                continue
+            bid = blk['id']
+            start = (bid, len(blk['elems']) - 1)
+            via_grow = f.cfg.path_avoiding(start, {spt[0]}, set(), edge_ok=lambda b_, si_, _b=bid, _g=grow_si: not (b_ == _b and si_ != _g))
+            via_other = f.cfg.path_avoiding(start, {spt[0]}, set(), edge_ok=lambda b_, si_, _b=bid, _g=grow_si: not (b_ == _b and si_ == _g))
+            if via_grow is not None and via_other is None:
+                guard = (f.N[blk['cond']] if isinstance(blk['cond'], int) else blk['cond'], lin(f, l_))
+    ctx.require(guard is not None, 'psf_store_string: growth guard `storage_used + ... > storage_len` not found above the store into storage_len')
     gnode, need = guard
-    caps = [(a, r) for lv, a, r in assigned_lvalues(f, gnode['then']) if lv == CAP and r is not None]
-    ctx.require(caps, 'psf_store_string: storage_len is not updated in the growth branch')
     newv = f.s(f.unwrap(caps[0][1]))
-    # lower bounds of the new length: follow the assignments of the local (last assignment of the form `x = x < c ? c : x` keeps earlier bounds)
+    # lower bounds of the new length: its definitions in source order up to the store (a clamp from below `x = x < c ? c : x` keeps earlier bounds)
     LB = []
-    for lv, a, r in assigned_lvalues(f, gnode['then']):
-        if lv == newv and r is not None:
-            lbs = _lower_bounds(f, r)
-            lbs = [L for L in lbs if newv not in L] or LB      # self-reference (clamp from below): earlier bounds survive
-            LB = lbs if lbs else LB
-    for n in f.walk(gnode['then']):
+    defs = []
+    for n in f.walk():
         if n['k'] == 'DeclStmt':
             for d in n.get('decls', []):
-                if d['n'] == newv and d.get('init') is not None and not LB:
-                    LB = _lower_bounds(f, f.N[d['init']])
-                elif d['n'] == newv and d.get('init') is not None:
-                    first = _lower_bounds(f, f.N[d['init']])
-                    if first and all(newv in str(L) for L in []):
-                        pass
-    # the declaration initialiser is the first definition
-    for n in f.walk(gnode['then']):
-        if n['k'] == 'DeclStmt':
-            for d in n.get('decls', []):
-                if d['n'] == newv and d.get('init') is not None:
-                    LB = _lower_bounds(f, f.N[d['init']]) or LB
+                if d['n'] == newv and d.get('init') is not None and d['init'] >= 0:
+                    defs.append(((n.get('l', 0), n.get('c', 0)), f.N[d['init']]))
+    for lv, a_, r_ in assigned_lvalues(f):
+        if lv == newv and r_ is not None and a_.get('op') == '=':
+            defs.append(((a_.get('l', 0), a_.get('c', 0)), r_))
+    stpos = (caps[0][0].get('l', 0), caps[0][0].get('c', 0))
+    for pos, r_ in sorted(defs, key=lambda d_: d_[0]):
+        if pos >= stpos:
+            continue
+        lbs = _lower_bounds(f, r_)
+        if any(newv in L for L in lbs):
+            # clamp from below `x = x < c ? c : x`: the new value is >= the old one, every earlier bound survives and c is one more
+            LB = LB + [L for L in lbs if newv not in L]
+        elif lbs:
+            LB = lbs
+        else:
+            LB = []
     # need with storage_used replaced by its upper bound storage_len (inductive invariant)
     target = dict(need)
     u = target.pop(USED, 0)
@@ -77,6 +108,7 @@ def str_grow(ctx, prog, rule='STR-GROW'):
             ok = True
     ctx.ob(rule, 'psf_store_string:growth', ok, f.loc(gnode), 'new storage length has a lower bound that covers storage_used + needed for all sizes' if ok else
            'no lower bound of the new length covers storage_used + needed (tried: %s): the copy to storage + storage_used can run past the reallocated block' % '; '.join(why)[:300], None)
-    # the copy itself goes to storage + storage_used with the length the guard accounted for
-    cps = [c for c in f.calls('memcpy') if USED in f.s(f.args(c)[0])]
-    ctx.ob(rule, 'psf_store_string:copy', bool(cps) and all(f.cfg.dominates(gnode, c) for c in cps), f.loc(cps[0]) if cps else f.loc(f.body), 'the copy into storage + storage_used comes after the growth step', None)
+    # the copy itself goes to storage + storage_used and comes after the growth step (after the call of the helper that holds it)
+    cps = [c for c in pub.calls('memcpy') if USED in pub.s(pub.args(c)[0])]
+    before = hcall if hcall is not None else gnode
+    ctx.ob(rule, 'psf_store_string:copy', bool(cps) and all(pub.cfg.dominates(before, c) for c in cps), pub.loc(cps[0]) if cps else pub.loc(pub.body), 'the copy into storage + storage_used comes after the growth step', None)
